@@ -189,6 +189,8 @@ def calibrate(ctx, world):
 	run = Run(world, 0, 102, 0, 4, lambda k: 0, lambda k: 0)
 	err = run.go()
 	ok = err is None
+	if getattr(run, "poller", False):
+		raise common.HarnessError("the clock generator polls its stop event instead of waiting on it: the harness cannot count its ticks off")
 	if err and err != "hung" and (run.vt.calls == 0 or run.ev.waits == 0):
 		# not an attachment problem: the worker thread was started by the real start() and ended (or never ran)
 		ctx.violation("calibrate", {"trace": run.trace}, what = "clock generator does not tick: " + err)
